@@ -378,9 +378,25 @@ pub fn check_process(c: &Case, dir: &std::path::Path, missing: bool) -> Verdict 
         Err(_) => return Verdict::Pass,
     };
     let _ = std::fs::create_dir_all(dir);
-    let path = dir.join("p.asm");
+    let mut path = dir.join("p.asm");
     if missing {
-        let _ = std::fs::remove_file(&path);
+        // "reading the program fails": three ways, chosen by the case (no file; a directory; a file that
+        // exists and can be read but is not valid UTF-8 — a Latin-1 umlaut inside a comment)
+        match c.expect_salt % 3 {
+            0 => {
+                let _ = std::fs::remove_file(&path);
+            }
+            1 => {
+                path = dir.to_path_buf();
+            }
+            _ => {
+                let mut bytes = c.program.as_bytes().to_vec();
+                bytes.extend_from_slice(b"\n ; gr\xE4\xDFer\n");
+                if std::fs::write(&path, &bytes).is_err() {
+                    return Verdict::Pass;
+                }
+            }
+        }
     } else if std::fs::write(&path, &c.program).is_err() {
         return Verdict::Pass;
     }
